@@ -5,7 +5,7 @@
 // modes (--opt mode=): wire (default) | frame (8-byte stream frame: three gateways in memory + TCP loopback echo through
 //                      message_transceiver_thread.py) | regress (fixed witnesses + documentation examples)
 // options: pypeer=<path of wire_peer.py> python=<interpreter> emit=<side file of {case,script,cpp} lines>
-//          mask=pynames,umzero (silence the two defects found on the pinned tree; they are counted as masked_*)
+//          mask=pynames,umzero,pyexample (silence the defects found on the pinned tree; they are counted as masked_*)
 #include "message/Message.h"
 #include "iogateway/MessageIOGateway.h"
 #include "dataio/TCPSocketDataIO.h"
@@ -905,8 +905,13 @@ static void Regress()
    vh::begin_case(1);   // message.py's own documentation example (its __main__ stub) is readable by the C++ and C codecs
    { caseBad = false; curJson = "(message.py example)"; EnsureWirePeer(); wirePeer.Send("{\"cmd\":\"example\"}\n"); std::vector<std::string> v = SplitTabs(wirePeer.ReadLine());
      if (v.size() != 3 || v[0] != "E") HarnessAbort("unexpected answer to the example request");
-     const std::string pb = FromHex(v[1]); curCppHex = vh::hex(pb.data(), pb.size(), 600);
-     if ((size_t)atol(v[2].c_str()) != pb.size()) Fail("regress|python-example-flattenedsize", "FlattenedSize() " + v[2] + vh::fmt(" but %zu bytes written", pb.size()));
+     std::string pb = FromHex(v[1]); curCppHex = vh::hex(pb.data(), pb.size(), 600); deferredKey.clear(); bool strItems = true;
+     if ((size_t)atol(v[2].c_str()) != pb.size()) {
+        // message.py: GetFieldContentsLength() counts str items of a non-string field without the NUL (and in characters) that Flatten() writes
+        Known("pyexample", "py|fieldlength-str-item-in-user-typed-field", "message.py's own example: FlattenedSize() " + v[2] + vh::fmt(" but Flatten() writes %zu bytes; the payload length word of field 'data' (str items in a field of type 555) is 3 too small", pb.size()));
+        wirePeer.Send("{\"cmd\":\"example\",\"data_as_bytes\":1}\n"); v = SplitTabs(wirePeer.ReadLine()); if (v.size() != 3 || v[0] != "E") HarnessAbort("unexpected answer to the example request");
+        pb = FromHex(v[1]); strItems = false; if ((size_t)atol(v[2].c_str()) != pb.size()) Fail("regress|python-example-flattenedsize", "FlattenedSize() " + v[2] + vh::fmt(" but %zu bytes written", pb.size()));
+     }
      Message back; status_t r = back.UnflattenFromBytes((const uint8 *)pb.data(), (uint32)pb.size());
      if (r.IsError()) Fail("regress|cpp-rejects-python-example", r());
      else {
@@ -915,7 +920,7 @@ static void Regress()
         if (back.what != 666 || back.GetNumNames() != 16 || back.FindInt32("int32", 2, i32).IsError() || i32 != 30 || back.FindInt64("int64", 4, i64).IsError() || i64 != -25 || back.FindBool("bool", 0, bo).IsError() || !bo
             || back.FindFloat("float", 4, fl).IsError() || fl != 4.0f || back.FindPoint("point", 0, pt).IsError() || pt.x() != 6.5f || pt.y() != 7.5f || back.FindRect("rect", 0, rc).IsError() || rc.left() != 9.1f || rc.bottom() != 12.5f
             || back.FindString("string", 2, &st).IsError() || *st != "strongme!" || back.FindMessage("submsg", 0, sub).IsError() || sub()->what != 777 || sub()->GetString("hola") != "senor"
-            || back.GetInfo("data", &tc, &cnt).IsError() || tc != 555 || cnt != 3 || back.FindData("data", 555, 1, &dp, &dn).IsError() || dn != 6 || memcmp(dp, "stuff\0", 6) != 0
+            || back.GetInfo("data", &tc, &cnt).IsError() || tc != 555 || cnt != 3 || back.FindData("data", 555, 1, &dp, &dn).IsError() || dn != (strItems ? 6u : 5u) || memcmp(dp, "stuff\0", dn) != 0
             || back.HasName("cboolfalse") || back.HasName("cstring") || back.HasName("cpoint") || !back.HasName("crect2"))
            Fail("regress|cpp-content-of-python-example", "the C++ Message parsed from message.py's example does not hold the documented values");
      }
@@ -923,6 +928,7 @@ static void Regress()
      if (MMUnflattenMessage(mm, pb.data(), (uint32)pb.size()) != CB_NO_ERROR) Fail("regress|mini-rejects-python-example", "MMUnflattenMessage"); else if (FlatMM(mm) != pb) Fail("regress|mini-reflatten-of-python-example", DiffText("python", pb, "mini", FlatMM(mm)));
      MMFreeMessage(mm);
      UMessage um; int16 i16 = 0; if (UMInitializeWithExistingData(&um, (const uint8 *)pb.data(), (uint32)pb.size()) != CB_NO_ERROR || UMGetWhatCode(&um) != 666 || UMGetNumFields(&um) != 16 || UMFindInt16(&um, "int16", 1, &i16) != CB_NO_ERROR || i16 != 18 || !UMGetString(&um, "string", 0) || strcmp(UMGetString(&um, "string", 0), "stringme!") != 0) Fail("regress|micro-of-python-example", "UMessage getters on message.py's example");
+     if (!caseBad && !deferredKey.empty()) Fail(deferredKey, deferredDetail);
      vh::distinct(vh::fnvs(pb), true); vh::stat("python_documentation_example_checked"); }
    vh::begin_case(2);   // message.py: FlattenedSize() counts the characters, not the UTF-8 bytes, of a field name -> wrong sub-Message length word
    { g = vh::Rng(102); Scr s; s.what = 2; Fld f; f.name = "sub"; f.type = B_MESSAGE_TYPE; Scr sub; sub.what = 1; sub.f.push_back(MkI("\xc3\xa9", B_INT32_TYPE, 5, 0, 1)); f.mv.push_back(sub); s.f.push_back(f); s.f.push_back(MkI("z", B_INT8_TYPE, 1, 0, 1)); RunWire(2, s, true); }
@@ -931,8 +937,8 @@ static void Regress()
    vh::begin_case(4);   // the documented 8-byte frame from all three gateways
    { g = vh::Rng(104); caseBad = false; if (ugIn.empty()) { ugIn.resize(2 * 1024 * 1024); ugOut.resize(2 * 1024 * 1024); }
      std::vector<Scr> ss(1, DocScript()); std::vector<MessageRef> ms(1, BuildCpp(ss[0])); const std::string body = FromHex(DOC_HEX); curJson.clear(); Json(ss[0], curJson);
-     const std::string doc = FromHex("4e000000" "30636e45") + body; curCppHex = vh::hex(doc.data(), doc.size(), 200); std::string sc, sm, su;
-     if (body.size() != 0x4e) HarnessAbort("documented example is not 78 bytes");
+     const std::string doc = FromHex("9b000000" "30636e45") + body; curCppHex = vh::hex(doc.data(), doc.size(), 200); std::string sc, sm, su;
+     if (body.size() != 155) HarnessAbort("documented example is not 155 bytes");
      if (!CppOut(ms, sc, why) || sc != doc) Fail("regress|cpp-gateway-documented-frame", DiffText("documented", doc, "c++ gateway", sc));
      if (!MiniOut(ss, sm, why) || sm != doc) Fail("regress|mini-gateway-documented-frame", DiffText("documented", doc, "mini gateway", sm));
      if (!MicroOut(ss, su, why) || su != doc) Fail("regress|micro-gateway-documented-frame", DiffText("documented", doc, "micro gateway", su));
